@@ -9,7 +9,11 @@ Open Scope string_scope.
 Record req := mkReq
   { qm : string; qp : string;
     qclean : string;      (* path.Clean(qp) as computed by Go *)
-    qres : response }.    (* Allow / Vars come sorted; compared as sets *)
+    qres : response;      (* Allow / Vars come sorted; compared as sets *)
+    qlate : list params }.
+    (* every LATER read of the path variables of this request: by its handler after a gate (held past
+       the route timeout while other requests were served; concurrent batch), and after all later
+       requests of the case: the map the handler kept, pathvar.Vars(r) again, httpx.ParsePath *)
 
 Record rcase := mkCase
   { cnf : bool; cna : bool;          (* custom not-found / not-allowed handler installed *)
@@ -69,6 +73,14 @@ Fixpoint forallb2 {A B} (f : A -> B -> bool) (a : list A) (b : list B) : bool :=
   | _, _ => false
   end.
 
+(* the model: the variables of a request are computed once, from the table and that request; every
+   later read gives the same bindings, whatever was served in between *)
+Definition lates_agree (r : response) (l : list params) : bool :=
+  match r with
+  | RHandler _ ps => forallb (params_eqb ps) l
+  | _ => match l with [] => true | _ => false end
+  end.
+
 (* ---- the trie model reproduces what the implementation did (a response is
    reproduced when it is one of those Go's map iteration order allows) *)
 Definition r_agrees (c : rcase) : bool :=
@@ -77,7 +89,8 @@ Definition r_agrees (c : rcase) : bool :=
   list_eqb reg_result_eqb (build_results r0 (cregs c)) (cregobs c)
   && forallb2 (fun g o => clean_agrees (rpath g) o) (cregs c) (cpclean c)
   && forallb (fun q => clean_agrees (qp q) (qclean q)
-                       && existsb (response_eqb (qres q)) (serve_allowed r (qm q) (qp q)))
+                       && existsb (response_eqb (qres q)) (serve_allowed r (qm q) (qp q))
+                       && lates_agree (qres q) (qlate q))
              (creqs c).
 
 (* ---- the property on the implementation's own observations, evaluated from the
@@ -119,6 +132,14 @@ Definition response_ok (T : table) (nf na : bool) (q : req) : bool :=
 Definition accepted (e : reg_result) : bool := match e with RegOk => true | _ => false end.
 Definition same_verdict (a b : reg_result) : bool := Bool.eqb (accepted a) (accepted b).
 
+(* every later read of the variables is judged like the first one: against the bindings of the best
+   route for THAT request *)
+Definition lates_ok (T : table) (nf na : bool) (m p : string) (r : response) (l : list params) : bool :=
+  match r with
+  | RHandler h _ => forallb (fun ps => response_ok T nf na (mkReq m p "" (RHandler h ps) [])) l
+  | _ => match l with [] => true | _ => false end
+  end.
+
 (* does the accepted table satisfy the property's side condition? *)
 Definition in_scope (c : rcase) : bool := one_var_name_per_position (table_of (cregs c)).
 
@@ -128,7 +149,8 @@ Definition r_prop_ok (c : rcase) : bool :=
   let T := table_of (cregs c) in
   if in_scope c then
     list_eqb same_verdict (reg_results [] (cregs c)) (cregobs c)
-    && forallb (response_ok T (cnf c) (cna c)) (creqs c)
+    && forallb (fun q => response_ok T (cnf c) (cna c) q
+                         && lates_ok T (cnf c) (cna c) (qm q) (qp q) (qres q) (qlate q)) (creqs c)
   else true.
 
 Definition r_model_obs (c : rcase) :=
@@ -146,7 +168,8 @@ Record sreq := mkSReq
   { sqs : nat;               (* the server the request is sent to *)
     sqm : string; sqp : string;
     sqres : sresponse;
-    sqmws : list Z }.        (* middleware tags the handler saw, outermost first *)
+    sqmws : list Z;          (* middleware tags the handler saw, outermost first *)
+    sqlate : list params }.  (* later reads of this request's variables (see [qlate]) *)
 
 Inductive start_obs := ObsStarted | ObsFailed (e : reg_result) | ObsNever.
 
@@ -188,6 +211,12 @@ Definition printed_agrees (regs : list reg) (o : list string) : bool :=
 Definition written_agrees (g : reg) (o : string * string) : bool :=
   (rmethod g =? fst o) && (rpath g =? snd o).
 
+Definition slates_agree (q : sreq) : bool :=
+  match sqres q with
+  | SResp r => lates_agree r (sqlate q)
+  | SCors204 => match sqlate q with [] => true | _ => false end
+  end.
+
 Definition mws_ok (c : scfg) (q : sreq) : bool :=
   match sqres q with
   | SResp (RHandler h _) => list_eqb Z.eqb (sqmws q) (mw_expected c h)
@@ -218,6 +247,7 @@ Definition s_agrees (s : scase) : bool :=
        | Some (Started r) =>
          let c := nth (sqs q) (scfgs s) default_cfg in
          existsb (sresponse_eqb (sqres q)) (sserve_allowed (sc_cors c) r (sqm q) (sqp q)) && mws_ok c q
+         && slates_agree q
        | _ => false
        end) (sreqs s).
 
@@ -234,18 +264,24 @@ Definition sresponse_ok (T : table) (nf na cors : bool) (q : sreq) : bool :=
   if cors then
     if sqm q =? "OPTIONS" then sresponse_eqb (sqres q) SCors204
     else match sqres q with
-         | SResp (RHandler h ps) => response_ok T nf true (mkReq (sqm q) (sqp q) "" (RHandler h ps))
+         | SResp (RHandler h ps) => response_ok T nf true (mkReq (sqm q) (sqp q) "" (RHandler h ps) [])
          | SResp RNotFound =>
            (* a real 404 (default handler), or the CORS answer to a would-be 405 *)
-           response_ok T nf true (mkReq (sqm q) (sqp q) "" RNotFound)
-           || response_ok T nf true (mkReq (sqm q) (sqp q) "" RNotAllowedCustom)
-         | SResp RNotFoundCustom => response_ok T nf true (mkReq (sqm q) (sqp q) "" RNotFoundCustom)
+           response_ok T nf true (mkReq (sqm q) (sqp q) "" RNotFound [])
+           || response_ok T nf true (mkReq (sqm q) (sqp q) "" RNotAllowedCustom [])
+         | SResp RNotFoundCustom => response_ok T nf true (mkReq (sqm q) (sqp q) "" RNotFoundCustom [])
          | _ => false
          end
   else match sqres q with
-       | SResp r => response_ok T nf na (mkReq (sqm q) (sqp q) "" r)
+       | SResp r => response_ok T nf na (mkReq (sqm q) (sqp q) "" r [])
        | SCors204 => false
        end.
+
+Definition slates_ok (T : table) (nf na cors : bool) (q : sreq) : bool :=
+  match sqres q with
+  | SResp r => lates_ok T nf (if cors then true else na) (sqm q) (sqp q) r (sqlate q)
+  | SCors204 => match sqlate q with [] => true | _ => false end
+  end.
 
 (* the route list of server i as the user wrote it *)
 Definition user_regs (s : scase) (i : nat) : list reg :=
@@ -272,6 +308,7 @@ Definition sreq_ok (s : scase) (q : sreq) : bool :=
     match first_error (reg_results [] regs) with
     | Some _ => false          (* the server cannot have answered *)
     | None => sresponse_ok (table_of regs) (sc_nf c) (sc_na c) (sc_cors c) q
+              && slates_ok (table_of regs) (sc_nf c) (sc_na c) (sc_cors c) q
     end.       (* Server.Use / WithChain tags are not the property's business: compared by [agrees] *)
 
 Definition s_prop_ok (s : scase) : bool :=
